@@ -158,6 +158,15 @@ func (C12) Generate(c *Ctx, r *Rand, index int) *Scenario {
 		sc.Meta["expr_alts"] = as
 	}
 	sc.TmpOther = c.W.DiskRoot != "" && rs.Chance(3, 10)
+	// second, hook-free fault layer: the real rename(2) is made to fail at the
+	// syscall boundary, which sends yq into the fallback on one file system too
+	straceOdds := 25
+	if c.Tier == "thorough" {
+		straceOdds = 8
+	}
+	if !sc.TmpOther && c.W.Strace != "" && rs.Chance(1, straceOdds) {
+		sc.Strace = "renameat:error=" + Pick(rs, []string{"EBUSY", "EACCES", "EXDEV", "EPERM"})
+	}
 	sc.Plan.Watch = []string{target}
 
 	// read schedule
@@ -395,7 +404,12 @@ func (C12) Judge(c *Ctx, sc *Scenario) []Violation {
 	if !c.Quiet {
 		c.Stats.Distinct(out.TraceSig(), nontrivial)
 		if path == "fallback" {
-			c.Count("probe.rename_took_EXDEV_fallback")
+			if sc.Strace != "" {
+				c.Count("fired.strace." + sc.Strace)
+				c.Count("probe.rename_failed_by_strace_took_fallback")
+			} else {
+				c.Count("probe.rename_took_EXDEV_fallback")
+			}
 		}
 		if faults == "none" {
 			c.Count("config.fault_free")
